@@ -292,6 +292,62 @@ static int do_str_random(unsigned long seed, int nhist, int nops, char const *pr
             }
         }
     }
+    /* pop sweep: long contents, pops that leave 0, a quarter, half (+-1) and all but one byte of the capacity */
+    {
+        static int const lens[] = {15, 16, 100, 255, 256, 257, 263, 300, 511, 512, 527, 600, 1000, 1039};
+        static unsigned char src[1100];
+        static int pre[1100];
+        static unsigned char got2[1100];
+        for (int i = 0; i < 1100; ++i) { src[i] = (unsigned char)(33 + i % 90); }
+        for (int li = 0; li < 14; ++li)
+        {
+            for (int which = 0; which < 2; ++which)
+            {
+                for (int ti = 0; ti < 8; ++ti)
+                {
+                    a_str o;
+                    a_str_ctor(&o);
+                    int L = lens[li];
+                    if (a_str_catn(&o, src, (a_size)L) != 0) { a_str_dtor(&o); continue; }
+                    int mem = (int)o.mem_;
+                    int r = ti == 0 ? 0 : ti == 1 ? mem / 4 : ti == 2 ? mem / 2 - 1 : ti == 3 ? mem / 2 : ti == 4 ? mem / 2 + 1 : ti == 5 ? L - 1 : ti == 6 ? mem / 8 : L / 2;
+                    if (r < 0) { r = 0; }
+                    if (r > L) { r = L; }
+                    int k = L - r;
+                    for (int i = 0; i < L; ++i) { pre[i] = src[i]; }
+                    memset(got2, 0, sizeof(got2));
+                    snprintf(cur_desc, sizeof(cur_desc), "\"op\":\"%s\",\"a1\":%d,\"n\":%d,\"mem\":%d,\"popsweep\":1", which ? "getn_" : "getn", k, L, mem);
+                    int ret = (int)(which ? a_str_getn_(&o, got2, (a_size)k) : a_str_getn(&o, got2, (a_size)k));
+                    int pnum = (int)o.num_, pmem = (int)o.mem_;
+                    int readable = pnum <= pmem && pnum <= 1100;
+                    FILE *fo = fos[(n_events / 256) % nb];
+                    fprintf(fo, "{\"op\":\"%s\",\"a1\":%d,\"blk\":[],\"pre\":{\"mem\":%d,\"s\":", which ? "getn_" : "getn", k, mem);
+                    put_ints(fo, pre, L);
+                    fprintf(fo, "},\"post\":{\"mem\":%d,\"after\":%d,\"s\":", pmem, (readable && pnum < pmem) ? (unsigned char)o.ptr_[pnum] : -1);
+                    put_bytes(fo, (unsigned char const *)o.ptr_, readable ? pnum : 0);
+                    fprintf(fo, "},\"ret\":%d,\"out\":", ret);
+                    put_bytes(fo, got2, ret > 0 && ret <= 1100 ? ret : 0);
+                    fprintf(fo, ",\"outok\":1}\n");
+                    ++n_events; ++n_edges;
+                    /* the object stays usable: one more terminated append after the pop, judged like any other step */
+                    if (readable)
+                    {
+                        for (int q = 0; q < pnum; ++q) { pre[q] = (unsigned char)o.ptr_[q]; }
+                        snprintf(cur_desc, sizeof(cur_desc), "\"op\":\"catc\",\"n\":%d,\"mem\":%d,\"popsweep\":2", pnum, pmem);
+                        int rc2 = a_str_catc(&o, 'Q');
+                        int qn = (int)o.num_, qm = (int)o.mem_, rd = qn <= qm && qn <= 1100;
+                        fprintf(fo, "{\"op\":\"catc\",\"a1\":0,\"blk\":[81],\"pre\":{\"mem\":%d,\"s\":", pmem);
+                        put_ints(fo, pre, pnum);
+                        fprintf(fo, "},\"post\":{\"mem\":%d,\"after\":%d,\"s\":", qm, (rd && qn < qm) ? (unsigned char)o.ptr_[qn] : -1);
+                        put_bytes(fo, (unsigned char const *)o.ptr_, rd ? qn : 0);
+                        fprintf(fo, "},\"ret\":%d,\"out\":[],\"outok\":1}\n", rc2);
+                        ++n_events; ++n_edges;
+                    }
+                    a_str_dtor(&o);
+                }
+            }
+        }
+    }
     for (int h = 0; h < nhist; ++h)
     {
         a_str o, other;
